@@ -69,10 +69,9 @@ def make_cases(tier, seed):
 
 
 def classify(case):
-    """S8: more than 500 entities send the layout through _optimize_with_decomposition"""
-    if geom.entity_total(case.bpj) > 500:
-        return "S8"
-    return None
+    """S8: more than 500 entities (planned grid poles included) send the layout through
+    _optimize_with_decomposition"""
+    return "S8" if geom.s8_region(case) else None
 
 
 def run(tier, seed, t0):
